@@ -475,8 +475,17 @@ func (c *actx) headerBattery(tip, hdrTip int) {
 		} else {
 			c.chk(err != nil, "HeaderHeightByHash", "header tip %d: HeaderHeightByHash(node %d, not on the header chain) = %d without error", hdrTip, x, gh)
 		}
-		want := on && !c.knownInvalid(x)
-		c.chk(bc.IsValidHeader(c.hashOf(x)) == want, "IsValidHeader", "header tip %d: IsValidHeader(node %d) = %v want %v (on header chain %v, status %#x)", hdrTip, x, !want, want, on, c.statusOf(x))
+		// not on the header chain or flagged itself: false; clean up to the root:
+		// true; own status clean under a flagged ancestor (the synthetic status
+		// pattern does not propagate flags): not judged.
+		invAbove := false
+		for y := x; y > 0; y = ref.Parent[y] {
+			invAbove = invAbove || c.knownInvalid(y)
+		}
+		if !on || c.knownInvalid(x) || !invAbove {
+			want := on && !c.knownInvalid(x)
+			c.chk(bc.IsValidHeader(c.hashOf(x)) == want, "IsValidHeader", "header tip %d: IsValidHeader(node %d) = %v want %v (on header chain %v, status %#x)", hdrTip, x, !want, want, on, c.statusOf(x))
+		}
 	}
 	ll, err := bc.LatestBlockLocatorByHeader()
 	c.chk(err == nil && eqIDs(c.locIDs(ll), ref.Locator(hdrTip)), "LatestBlockLocatorByHeader", "header tip %d: LatestBlockLocatorByHeader = nodes %v, naive %v", hdrTip, c.locIDs(ll), ref.Locator(hdrTip))
